@@ -1,5 +1,6 @@
 (* Properties_C08.v — C08: what the encoders produce, the library's own receivers accept unchanged. *)
 From Via Require Import M_Char M_Encode M_Parse M_Receive P_C08 P_C02 P_C08b P_C08c P_C08d P_C08e P_C08f P_C08g P_C08h.
+From Via Require Import M_Str Gen_Parse P_Str.
 Local Open Scope N_scope.
 
 (* every header name the library defines (all ids of header_field::id, regenerated from the source)
@@ -215,3 +216,13 @@ Print Assumptions C08_response_message_roundtrip.
 Print Assumptions C08_chunk_header_roundtrip.
 Print Assumptions C08_chunk_roundtrip.
 Print Assumptions C08_last_chunk_roundtrip.
+
+(* what the encoders produce is what the translated tx_response::message / tx_request::message return (see Properties_C04.v) *)
+Theorem C08_response_message_is_the_source : forall r n,
+  srun (mk_senv (response_line_string r) (rs_headers r) (rs_status r) n) tx_response_message_src = Some (response_message r n).
+Proof. exact response_message_is_the_source. Qed.
+Theorem C08_request_message_is_the_source : forall r n,
+  srun (mk_senv (request_line_string r) (tq_headers r) 0 n) tx_request_message_src = Some (request_message r n).
+Proof. exact request_message_is_the_source. Qed.
+Print Assumptions C08_response_message_is_the_source.
+Print Assumptions C08_request_message_is_the_source.
